@@ -22,6 +22,7 @@ func Int64(name string) int64                   { panic("symbolic only") }
 func Uint8(name string) uint8                   { panic("symbolic only") }
 func Uint32(name string) uint32                 { panic("symbolic only") }
 func Str(name string, maxLen int) string        { panic("symbolic only") }
+func StrN(name string, n int) string            { panic("symbolic only") }
 func OneOf(name string, opts ...string) string  { panic("symbolic only") }
 func Choice(name string, n int) int             { panic("symbolic only") }
 func Assume(c bool)                             { panic("symbolic only") }
@@ -120,6 +121,19 @@ func (e *Engine) rtCall(c *CallCtx) (Value, bool) {
 		e.addPC(st, ts.BvCmp(OBvUle, ts.StrLen(v), ts.Int(int64(n))))
 		st.model = nil
 		e.ensureModel(st)
+		return v, true
+	case "StrN":
+		// a string of exactly n symbolic printable-ASCII bytes (0x21..0x7e), kept as a unit sequence
+		n := c.intArg(1)
+		parts := make([]*Term, n)
+		for i := 0; i < n; i++ {
+			b := e.input(st, fmt.Sprintf("%s[%d]", c.strArg(0), i), BVSort(8))
+			st.inputs[len(st.inputs)-1].Unsigned = true
+			e.assume(st, ts.And(ts.BvCmp(OBvUle, ts.BV(0x21, 8), b), ts.BvCmp(OBvUle, b, ts.BV(0x7e, 8))))
+			parts[i] = ts.StrFromCode(ts.Zext(b, 64))
+		}
+		v := ts.StrConcat(parts...)
+		st.inputs = append(st.inputs, InputRec{Name: c.strArg(0), Base: c.strArg(0), T: v})
 		return v, true
 	case "Opaque":
 		return ts.Fresh("opaque:"+c.strArg(0), StringSort), true
